@@ -68,6 +68,43 @@ def ev(node, env):
         return {ev(k, env): ev(v, env) for k, v in zip(node.keys, node.values)}
     if isinstance(node, ast.Set):
         return {ev(e, env) for e in node.elts}
+    if isinstance(node, (ast.ListComp, ast.SetComp, ast.GeneratorExp, ast.DictComp)):
+        results = []
+
+        def bind(target, value, scope):
+            if isinstance(target, ast.Name):
+                scope[target.id] = value
+            elif isinstance(target, (ast.Tuple, ast.List)):
+                vals = tuple(value)
+                if len(vals) != len(target.elts):
+                    raise Unsupported('unpacking arity')
+                for t_, v_ in zip(target.elts, vals):
+                    bind(t_, v_, scope)
+            else:
+                raise Unsupported('comprehension target')
+
+        def run(gens, scope):
+            if not gens:
+                if isinstance(node, ast.DictComp):
+                    results.append((ev(node.key, scope), ev(node.value, scope)))
+                else:
+                    results.append(ev(node.elt, scope))
+                return
+            g = gens[0]
+            seq = list(ev(g.iter, scope))
+            if len(seq) > 256:
+                raise Unsupported('long iteration')
+            for item in seq:
+                inner = dict(scope)
+                bind(g.target, item, inner)
+                if all(ev(c, inner) for c in g.ifs):
+                    run(gens[1:], inner)
+        run(node.generators, dict(env))
+        if isinstance(node, ast.DictComp):
+            return dict(results)
+        if isinstance(node, ast.SetComp):
+            return set(results)
+        return results
     if isinstance(node, ast.BoolOp):
         if isinstance(node.op, ast.And):
             val = True
